@@ -30,6 +30,9 @@ def small_program(rng, with_test=False):
             lines = text.split("\n")
             lines.insert(rng.randrange(len(lines)), rng.choice(NONASCII_LINES))
             text = "\n".join(lines)
+        if rng.random() < 0.25 and ".define segment" not in text:
+            # a segment block whose name is given by an identifier that means something else at the root
+            text += '.const segname = "default"\nshadow: {\n    .const segname = "default"\n    .segment segname {\n        nop\n    }\n}\n.byte segname == "default"\n'
         if with_test:
             text += '.test "t" {\n    lda #1\n    .assert cpu.a == 1\n    brk\n}\n'
         return text
@@ -102,6 +105,17 @@ def battery(pr, open_bufs, disk, rng_seed):
                     continue   # a rename request changes the server's state (that is one of the things under test): not part of the battery
                 out["%s %s:%d:%d" % (m, name, ln, ch)] = pr.srv.request(m, params_for(m, uri, ln, ch))
     out["workspace/symbol"] = pr.srv.request("workspace/symbol", {"query": ""})
+    # the same questions once more, now that every kind of request has been served: reading must not change the answers
+    again = {}
+    for name in sorted(texts):
+        uri = pr.uri(name)
+        for m in DOC_METHODS:
+            again["%s %s" % (m, name)] = pr.srv.request(m, doc_params(m, uri))
+    for key in sorted(k for k in out if ":" in k.split(" ")[-1] and k.split(" ")[0] in ("textDocument/references", "textDocument/definition", "textDocument/documentHighlight")):
+        m, rest = key.split(" ", 1)
+        name, ln, ch = rest.rsplit(":", 2)
+        again[key] = pr.srv.request(m, params_for(m, pr.uri(name), int(ln), int(ch)))
+    out["__again__"] = again
     return out
 
 
@@ -258,6 +272,7 @@ def run_history(acc, rng, hist_seed):
     for k in range(nlib):
         disk["lib%d.asm" % k] = lib_program(rng, k)
     disk["orphan.asm"] = "orphan: nop\n"       # a file of the directory that is not part of the project
+    disk["sub/util.asm"] = "util: nop\n"      # a subdirectory: its name (and the empty name) is what a half-typed import path says
     pr = L.Project(disk, open_files=())
     open_bufs = {}
     flags = set()
@@ -315,6 +330,10 @@ def run_history(acc, rng, hist_seed):
                 if len(keep) < nlib:
                     flags.add("import-removed")
                 text = "\n".join('.import * from "lib%d.asm"' % k for k in keep) + ("\n" if keep else "") + text
+                if rng.random() < 0.25:
+                    # an import path as it looks while it is being typed: empty, a directory, a directory with a slash
+                    flags.add("import-of-directory")
+                    text = '.import * from "%s"\n' % rng.choice(["", "sub", "sub/", "sub/util.asm", ".", "sub/util"]) + text
                 if "main.asm" in open_bufs:
                     send_change("main.asm", text)
                 else:
@@ -374,6 +393,18 @@ def run_history(acc, rng, hist_seed):
         history_log = list(pr.srv.log)
         edited = battery(pr, open_bufs, disk, hist_seed)
         edited_diags = {pr.name_of_uri(u): normalise(d) for u, d in pr.srv.diagnostics.items()}
+        # requests only read: the same question asked twice in a row of one server gets the same answer
+        again = edited.pop("__again__", {})
+        for key in sorted(again):
+            a1, a2 = normalise(edited.get(key)), normalise(again[key])
+            acc.count("answers_asked_twice")
+            if "<no answer>" in (a1, a2):
+                continue
+            if a1 != a2:
+                acc.violation("request-changes-answers|%s" % key.split(" ")[0].split("/")[-1],
+                              "%s: asked twice of the same server without any change of a buffer in between: %s, then %s" % (key, str(a1)[:200], str(a2)[:200]),
+                              {"disk": disk, "open_buffers": open_bufs, "events": events[-12:], "query": key, "first": a1, "second": a2})
+                return
         fresh = []
         for k in range(2):
             f = L.Project.__new__(L.Project)
@@ -387,6 +418,8 @@ def run_history(acc, rng, hist_seed):
             fresh.append((f, battery(f, open_bufs, disk, hist_seed), {f.name_of_uri(u): normalise(d) for u, d in f.srv.diagnostics.items()}))
         try:
             (fa, ba, da), (fb, bb, db) = fresh
+            ba.pop("__again__", None)
+            bb.pop("__again__", None)
             for key in sorted(edited):
                 a, b, e = normalise(ba.get(key)), normalise(bb.get(key)), normalise(edited[key])
                 acc.count("battery_answers_compared")
